@@ -521,6 +521,22 @@ func (encryptor *QueryDataEncryptor) getInsertPlaceholders(ctx context.Context, 
 			}
 		}
 	}
+	// The assignments of ON CONFLICT ... DO UPDATE SET name their columns themselves:
+	//
+	//     ... ON CONFLICT (id) DO UPDATE SET column = $3
+	if onConflict := insert.GetOnConflictClause(); onConflict != nil {
+		valuesCount += len(onConflict.GetTargetList())
+		for _, target := range onConflict.GetTargetList() {
+			resTarget := target.GetResTarget()
+			if resTarget == nil || resTarget.GetVal().GetParamRef() == nil {
+				continue
+			}
+			err := encryptor.updatePlaceholderMap(valuesCount, placeholders, int(resTarget.GetVal().GetParamRef().GetNumber()), resTarget.GetName())
+			if err != nil {
+				return nil, err
+			}
+		}
+	}
 	return placeholders, nil
 }
 
@@ -561,14 +577,6 @@ func (encryptor *QueryDataEncryptor) encryptInsertValues(ctx context.Context, in
 		return values, false, err
 	}
 	encryptor.savePlaceholderSettingIntoClientSession(ctx, placeholders, schema)
-
-	// TODO(ilammy, 2020-10-13): handle ON DUPLICATE KEY UPDATE clauses
-	// These clauses are handled for textual queries. It would be nice to encrypt
-	// any prepared statement parameters that are used there as well.
-	// See "encryptInsertQuery" for reference.
-	if insert.OnConflictClause != nil {
-		logrus.Warning("ON CONFLICT DO UPDATE is not supported in prepared statements")
-	}
 
 	// Now that we know the placeholder mapping,
 	// encrypt the values inserted into encrypted columns.
